@@ -8,8 +8,8 @@ from vt import detsched as ds, aosim, timersim
 ID = 'C12'
 ENGINE = 'detsched'
 TECHNIQUE = 'runtime monitoring under a deterministic cooperative scheduler with a virtual clock: happens-after checker (no dispatch and no timed posting after stop() returned), thread liveness, liveness of a second object and of the fabric, exact deadlock detection'
-RULE = ('an ActiveObject with 0-3 timed sources, 0-3 poster threads and a handler that may post, a SECOND active object and a plain queue '
-        'subscribed to the fabric; stop() is called at a random virtual instant (in part of the runs while the current step of the object is arming a further timed source, in part while an application thread arms one (its arming call held at a random point by an injected virtual delay in most of these runs): such a source must be silent after stop() returned whenever its arming call had returned, or it had already posted, before stop() was called) (coinciding with a timer instant in half of the runs) from '
+RULE = ('an ActiveObject with 0-3 timed sources (heart beats, 20-shot sources and time-out style one-shots that are still pending at the stop), 0-3 poster threads and a handler that may post, a SECOND active object and a plain queue '
+        'subscribed to the fabric; stop() is called at a random virtual instant (in part of the runs while the current step of the object is arming a further timed source, in part while an application thread arms one (its arming call - or, in the other runs, the stop() call itself - held at a random point by an injected virtual delay): such a source must be silent after stop() returned whenever its arming call had returned, or it had already posted, before stop() was called) (coinciding with a timer instant in half of the runs) from '
         'the harness thread or - in a third of the outside runs - from a handler of the SECOND active object (a supervisor stopping a worker; in most of these runs both objects carry the same name) (in part of the harness-thread runs AFTER the object\'s thread has already ended because the fabric had been stopped and restarted) or from inside one of the object\'s own handlers. After stop() returned from outside: the object\'s thread has '
         'ended, no dispatch-enter record and no posting by one of its timed sources carries a later step, a post to the second object is '
         'still dispatched and a fabric publication still reaches its subscriber; stop() inside a handler: no exception escapes, no further '
@@ -18,17 +18,23 @@ RULE = ('an ActiveObject with 0-3 timed sources, 0-3 poster threads and a handle
 CASES = {'quick': 1200, 'thorough': 80000}
 BUDGET = {'quick': 150, 'thorough': 300}
 REQUIRE = {'runs': 500, 'stop_from_outside': 200, 'stop_from_handler': 150, 'runs_with_timed_sources': 300, 'stop_coincides_with_posting': 100, 'step_arms_timed_source_during_stop': 100,
-           'application_thread_arms_source_around_stop': 100, 'application_armed_source_started_before_stop': 25, 'arming_call_held_by_injected_delay': 60, 'stop_called_after_the_thread_had_already_ended': 12, 'stop_called_by_a_handler_of_another_object': 100, 'stop_called_by_a_namesake_object': 50}
+           'application_thread_arms_source_around_stop': 100, 'application_armed_source_started_before_stop': 25, 'arming_call_held_by_injected_delay': 60, 'stop_call_held_by_injected_delay': 20, 'stop_called_after_the_thread_had_already_ended': 12, 'stop_called_by_a_handler_of_another_object': 40, 'stop_called_by_a_namesake_object': 20, 'runs_with_a_one_shot_source': 100}
 ASSUME = ['instantaneous-computation time model']
 ANNOUNCE_CASES = True
 
 
 def run_case(ctx, n):
   rng = ctx.rng('case', n)
+  one_shots = []
   sources = timersim.gen_sources(rng, nmax=3, times_max=0) if rng.random() < 0.75 else []
   for src in sources:
-    src['times'] = rng.choice([0, 0, 20])
+    src['times'] = rng.choice([0, 0, 20, 1])
     src['start_delay'] = 0.0
+    if src['times'] == 1:
+      # a time-out style ONE-SHOT that is still pending when stop() is called in most runs: it must never fire afterwards
+      src['deferred'] = True
+      src['period'] = rng.choice([0.1, 1.0, 2.5])
+      one_shots.append(src['i'])
   nposters = rng.randint(0, 3)
   inside = rng.random() < 0.4
   pol = aosim.policy_for(rng, est_len=1200, fair_suffix=False)
@@ -67,7 +73,7 @@ def run_case(ctx, n):
     extsrc = {'i': 60, 'sig': 'TICK_EXT', 'kind': rng.choice(['fifo', 'lifo']), 'period': rng.choice([0.01, 0.05]), 'times': 0,
               'deferred': rng.choice([False, False, True]), 'start_delay': 0.0}
     ext_rec = {}
-    ext_more = rng.randint(0, 3)
+    ext_more = rng.randint(0, 5)
     fanB = {}
     stB = aosim.make_state(histB, fanB, spied=True, name='b_state')
     if peer:
@@ -115,6 +121,12 @@ def run_case(ctx, n):
         s.inject = {'match': lambda me, loc: me.role == 'ext_armer' and isinstance(loc, tuple) and loc[0] == '__post_event',
                     'visit': rng.randint(1, 40), 'sleep': rng.choice([0.0008, 0.002, 0.02])}
         ctx.count('arming_call_held_by_injected_delay')
+      elif ext_arm:
+        # ... or the other way round: the thread inside stop() is held at a random line of stop() while the application thread
+        # arms its sources
+        s.inject = {'match': lambda me, loc: isinstance(loc, tuple) and loc[0] == 'stop' and me.role != 'ext_armer',
+                    'visit': rng.randint(1, 30), 'sleep': rng.choice([0.0008, 0.002])}
+        ctx.count('stop_call_held_by_injected_delay')
       if ext_arm:
         def ext_armer():
           ds.STime.sleep(max(0.0, ts - rng.choice([0.0, 0.0005, 0.0005]) - ds.S.clock))
@@ -169,6 +181,8 @@ def run_case(ctx, n):
                     '%s: %s; blocked threads %r' % (where, v.kind, (v.info or {}).get('blocked')), {'inside': inside, 'sources': len(sources), 'posters': nposters, 'policy': pol})
       return
     ctx.count('runs')
+    if one_shots:
+      ctx.count('runs_with_a_one_shot_source', len(one_shots))
     ctx.count('stop_from_handler' if inside else 'stop_from_outside')
     if sources:
       ctx.count('runs_with_timed_sources')
